@@ -139,9 +139,32 @@ ADDENDA = {
     'C18': ('; WHO on the client in-flight table', ' Also: only the receiving task removes entries from the in-flight table whose keys are object addresses (C18-9); pipe ends are opened blocking.'),
     'C19': ('; configuration pass-through; MUSTPASS of the queue query before a short batch is closed', ' Also: the configured wait reaches the loop unchanged; a short batch is closed only after the queue was asked in that iteration; the custom end marker is compared with ==.'),
 }
+# rules added in the third and fourth seeding rounds (DESIGN.md 11.3), per property: (technique suffix, note suffix)
+ADDENDA2 = {
+    'C01': ('; finite-domain evaluation of the SingleLane wait predicates; ORIGIN of the executor', ' Also: SingleLane waits exactly at full / empty and notifies unconditionally (C01-4); executor wrappers forward unchanged (C01-7); feeder parameters are positional-only (C01-8); the handler that turns a failure into an output catches Exception at most (C01-3f); the pool is constructed by the iteration that uses it (C01-9).'),
+    'C02': ('', ' Also: after a recorded member answer the request is emitted or its completion test evaluated on every path (C02-5); slot-return obligations cross-listed (C02-8).'),
+    'C03': ('; marker identity (AGREE); per-consumption state (ORIGIN)', ' Also: end markers of the in-process relays are recognised by identity, relay state is created per consumption (C03-7); stop-flag and consumer-pairing obligations of buffer / parmap inside a chain (C03-9).'),
+    'C04': ('', ' Also: the members of a failed batch receive the batch\'s own exception object, wrapped (C04-4); preprocess is looked up on the worker object (C04-9).'),
+    'C05': ('; marker identity; per-consumption state (ORIGIN)', ' Also: no source pull is in flight while the sync-to-async adapter is suspended (C05-7); SingleLane cannot lose a wake-up (C05-8); relay state is created per consumption (C05-9); markers by identity (C05-2).'),
+    'C06': ('; MUSTPASS from the notified return of Condition.wait', ' Also: timeouts passed through as given (C06-9), ensemble catalog (C06-10), the class the library raises is caught (C06-11), one deadline per request (C06-12), a wake-up is not wasted (C06-13).'),
+    'C07': ('; MUSTPASS from the notified return of Condition.wait; PAIR of stop order', ' Also: members are stopped in start order and sentinels forwarded (C07-6); a woken waiter that gives up re-evaluates the guard or passes the wake-up on (C07-7).'),
+    'C08': ('; ORIGIN of the executor', ' Also: SingleLane obligations (C08-5), stop flag on every abnormal consumer exit (C08-6), the pool is private to the iteration (C08-3).'),
+    'C09': ('; relational abstract interpretation of len(batch) against batch_size over {<,==,>}', ' Also: the size bound is decided for any loop form (C09-2, rules/sizebound.py); a started batch is handed over on every exit, queue locks are per queue (C09-7/-8); preprocess is looked up on the worker object (C09-9); the remaining time is clamped for queues that reject negative timeouts, deadlines use a monotonic clock (C09-4).'),
+    'C10': ('; AGREE of the fork count', ' Also: the window has exactly buffer_size slots, exhaustion by StopIteration only (C10-7); every fork is told the number of forks that are created (C10-8).'),
+    'C11': ('', ' Also: a dispatcher thread is started after every fallible member launch (C11-1); slot return whatever the state of the future (C11-8).'),
+    'C12': ('; closed-world fallibility incl. constructors of computed classes; finite-domain evaluation of the SystemExit handler; ORIGIN of the future', ' Also: two reapers (C12-10), sys.exit classification (C12-11), the finished path always consults the outcome and accessors wait only for worker / collector / future (C12-4), the future exists when start() returns (C12-12).'),
+    'C13': ('; fallible remote increment; typestate of the connection cache', ' Also: a swallowed failure of the remote increment is counted as none (C13-1/-2); the server is looked up by token.address (C13-6); a closed cached connection leaves the cache (C13-7).'),
+    'C14': ('; typestate of the connection cache; DATAFLOW of the proxy decision', ' Also: the shortcut is taken only for get_server(token.address) (C14-7); the registry only grows (C14-9); a closed cached connection leaves the cache (C14-10); proxy or copy is decided by the method table alone (C14-11).'),
+    'C15': ('', ' Also: the re-wrap loop visits every slot, __reduce__ names type(self) (C15-5); every hop that forwards a worker result re-wraps an exception value (C15-6).'),
+    'C16': ('', ' Also: the C05 obligations of the async variants (C16-5), the class the library raises is caught (C16-6), servlets re-enterable (C16-7), the admission obligations of AsyncServer (C16-8).'),
+    'C17': ('; GUARD on a positive isinstance test', ' Also: state travels through __getstate__/__setstate__ (C17-4), timeouts passed through (C17-5), token arithmetic (C17-6), thread-only helpers only for positively identified thread queues (C17-7).'),
+    'C18': ('; codec agreement by family; AGREE of the codec parameter', ' Also: timeouts passed through (C18-10), SingleLane obligations (C18-11), the caller\'s codec is the codec used (C18-12), a timeout is raised only by the wait on the future (C18-13).'),
+    'C19': ('; relational abstract interpretation of len(batch) against batch_size over {<,==,>}', ' Also: the size bound is decided for any loop form (C19-2); the end marker is recognised in both forms, by value (C19-1).'),
+    'C20': ('; WHO may put on the log queue; MUSTPASS of the flag reader', ' Also: the log reader stops only when the child-ended flag had been read true before an empty look at the queue, and the flag is set only after the child was observed dead (C20-1); the forwarding handler is the standard QueueHandler (C20-2); nothing needed at the end is created at the end (C20-5); the parent never puts on the log queue while the child may be alive (C20-6).'),
+}
 COMMON_NOTE = COMMON_NOTE + (
     ' Before the rules run, the syntax tree (never the files) is normalised: while/next loops are read as for loops, functions the rules look up by name that were renamed consistently are mapped back through body fingerprints (anchors.json), '
-    'and calls of helpers that do not exist in the confirmed tree are read in place when that is exact; every such mapping is printed and recorded in the evidence notes.'
+    'calls of helpers that do not exist in the confirmed tree are read in place when that is exact, assignment expressions are desugared, annotated assignments and import aliases are read as their plain forms; every name mapping is printed and recorded in the evidence notes.'
 )
 
 
@@ -155,6 +178,8 @@ def main():
             tech, text, ref = CLAIMS[pid]
             if pid in ADDENDA:
                 tech, text = tech + ADDENDA[pid][0], text + ADDENDA[pid][1]
+            if pid in ADDENDA2:
+                tech, text = tech + ADDENDA2[pid][0], text + ADDENDA2[pid][1]
             checks.append(
                 {
                     'property_id': pid,
